@@ -51,6 +51,11 @@ def entry(name=None, needs=None, weight=1):
 
 # ------------------------------------------------------------------ helpers
 
+def _nlist(c):
+    # the shape argument as a list or as an int64 ndarray ("list, np.ndarray")
+    return c.own(np.array(c.n)) if c.rng.random() < 0.4 else c.own(list(c.n))
+
+
 def _ranks(c):
     return int(c.rng.integers(1, 4))
 
@@ -126,7 +131,7 @@ def e_interface(c):
     elif pk == 'list':
         kw['P'] = c.own([c.rng.uniform(0.1, 1.0, k) for k in c.n])
     if c.rng.random() < 0.5:
-        kw['i'] = c.ind()
+        kw['i'] = c.ind() if c.rng.random() < 0.6 else c.own([int(x) for x in c.ind()])
     return Call('interface', teneva.interface, [c.tt()], kw)
 
 
@@ -306,12 +311,15 @@ def e_const(c):
             # keep the request satisfiable: differ from every zero index in at least one position
             if all(any(a != b for a, b in zip(z, i_nz)) for z in kw['I_zero']):
                 kw['i_non_zero'] = c.own(i_nz)
-    return Call('const', teneva.const, [c.own(list(c.n))], kw, may_fail=True)
+    return Call('const', teneva.const, [_nlist(c)], kw, may_fail=True)
 
 
 @entry()
 def e_delta(c):
-    return Call('delta', teneva.delta, [c.own(list(c.n)), c.ind()], {'v': float(c.rng.standard_normal())})
+    i = c.ind()
+    if c.rng.random() < 0.4:
+        i = c.own([int(x) for x in i])
+    return Call('delta', teneva.delta, [_nlist(c), i], {'v': float(c.rng.standard_normal())})
 
 
 @entry()
@@ -322,7 +330,7 @@ def e_poly(c):
     if c.rng.random() < 0.5:
         kw['power'] = int(c.rng.integers(1, 4))
         kw['scale'] = 2.0
-    return Call('poly', teneva.poly, [c.own(list(c.n))], kw)
+    return Call('poly', teneva.poly, [_nlist(c)], kw)
 
 
 def _nshape(c):
@@ -356,7 +364,7 @@ def e_rand_custom(c):
     def f(size):
         c.monitor('rand_custom.f')
         return g.standard_normal(size)
-    return Call('rand_custom', teneva.rand_custom, [c.own(list(c.n)), _rshape(c), f])
+    return Call('rand_custom', teneva.rand_custom, [_nlist(c), _rshape(c), f])
 
 
 @entry(weight=2)
@@ -613,7 +621,7 @@ def e_poi_to_ind(c):
     X = c.own(c.rng.uniform(-3, 3, (4, d)))
     if c.rng.random() < 0.3:
         X = c.own(X[0].copy())
-    return Call('poi_to_ind', teneva.poi_to_ind, [X, a, b, _pick(c, [c.own(nn), 6])], {'kind': _pick(c, ['uni', 'cheb'])})
+    return Call('poi_to_ind', teneva.poi_to_ind, [X, a, b, _pick(c, [c.own(nn), c.own(np.array(nn)), 6])], {'kind': _pick(c, ['uni', 'cheb'])})
 
 
 @entry()
@@ -647,6 +655,8 @@ def e_vector_delta(c):
 @entry()
 def e_accuracy_on_data(c):
     I = c.idx(6)
+    if c.rng.random() < 0.3:
+        I = c.own(I.tolist())
     y = c.own(c.rng.standard_normal(6) + 2)
     kw = {} if c.rng.random() < 0.6 else {'e_trunc': 1e-3}
     if c.rng.random() < 0.2:
@@ -721,7 +731,7 @@ def e_func_gets(c):
     A = c.own(c.tt_shape(n, 2))
     kw = {}
     if c.rng.random() < 0.5:
-        kw['m'] = _pick(c, [int(n[0] + 1), c.own([n[0] + 1] * len(n))])
+        kw['m'] = _pick(c, [int(n[0] + 1), c.own([n[0] + 1] * len(n)), c.own(np.array([n[0] + 1] * len(n)))])
     if c.rng.random() < 0.3:
         kw['kind'] = 'sin'
     return Call('func_gets', teneva.func_gets, [A], kw)
@@ -772,7 +782,7 @@ def e_func_get_full(c):
 @entry()
 def e_func_gets_full(c):
     A, nn, d = _dense_eq(c)
-    kw = {} if c.rng.random() < 0.5 else {'m': _pick(c, [nn + 1, c.own([nn + 1] * d)])}
+    kw = {} if c.rng.random() < 0.5 else {'m': _pick(c, [nn + 1, c.own([nn + 1] * d), c.own(np.array([nn + 1] * d))])}
     return Call('func_gets_full', teneva.func_gets_full, [A, -1.0, 1.0], kw)
 
 
@@ -787,7 +797,7 @@ def e_func_sum_full(c):
     A, nn, d = _dense_eq(c)
     if c.rng.random() < 0.25:
         return Call('func_sum_full', teneva.func_sum_full, [A, -1.0, 2.0], may_fail=True)
-    return Call('func_sum_full', teneva.func_sum_full, [A, _pick(c, [-2.0, c.own([-2.0] * d)]), _pick(c, [2.0, c.own([2.0] * d)])])
+    return Call('func_sum_full', teneva.func_sum_full, [A, _pick(c, [-2.0, c.own([-2.0] * d), c.own(-2.0 * np.ones(d))]), _pick(c, [2.0, c.own([2.0] * d), c.own(2.0 * np.ones(d))])])
 
 
 # ------------------------------------------------------------------ optima
@@ -884,7 +894,7 @@ def e_sample_rand_poi(c):
 
 @entry(weight=2)
 def e_sample_tt(c):
-    return Call('sample_tt', teneva.sample_tt, [c.own(list(c.n))], {'r': int(c.rng.integers(1, 4)), 'seed': c.seed()}, seed_kw='seed')
+    return Call('sample_tt', teneva.sample_tt, [_nlist(c)], {'r': int(c.rng.integers(1, 4)), 'seed': c.seed()}, seed_kw='seed')
 
 
 @entry(weight=2)
